@@ -56,6 +56,7 @@ def main():
         if status == "MISSED" or broken:
             bad += 1
         print("%-6s %-16s fired=%s %s" % (nm, status, ",".join("%s[%s]" % (c, "/".join(sorted(rules.get(c, [])))) for c in fired), ("BROKEN " + ",".join(broken)) if broken else ""), flush=True)
+    subprocess.call([os.path.join(VERIF, "tools", "prune_work.sh")])
     return 1 if bad else 0
 
 
